@@ -461,7 +461,13 @@ def _use(tb: Table, step: list[Any]) -> None:
         elif kind == "convert_si":
             convert_to_si(q)
         elif kind == "convert_unit":
-            convert_to(q, other)
+            # a catalogue constant as the target unit: another constant of the same dimension if there is one
+            # (solar_mass in earth masses), else a multiple of the constant in units of the constant itself
+            same = [tb.get(n) for n in tb.names if tb.get(n) is not q and str(tb.get(n).dimension) == str(q.dimension)]
+            if same and k % 2 == 0:
+                convert_to(q, same[k % len(same)])
+            else:
+                convert_to(Quantity(q * (k + 2)), q)
         elif kind == "approx":
             approx_equal_quantities(q, Quantity(q * sympy.Rational(1001, 1000)))
         elif kind == "collect":
